@@ -1,5 +1,6 @@
 import Proofs.C15.Size
 import Proofs.C15.Text
+import Proofs.C15.Sound
 /-!
 # C15 — miniscript typing, compilation, read-back and satisfaction are consistent
 
@@ -84,5 +85,62 @@ example :
 /-- non-vacuity of the parser itself, on a short text: `l:older(9)` is `or_i(0,older(9))`. -/
 example : parseSyntax .p2wsh "l:older(9)".toList = some (.bin .or_i .f0 (.older 9)) := by
   decide +kernel
+
+/-- the instruction list `opsOf` (the script as `_fragment_script` writes it, symbolically)
+    serializes to exactly the compiled bytes, for EVERY expression, both dialects, both VERIFY
+    states: what T3 executes is the compiled script. -/
+theorem compiled_script_is_ops (ctx : Ctx) (h160 : Bytes → Bytes) (n : Ms) (verify : Bool) :
+    ser (opsOf ctx h160 verify n) = compile ctx h160 verify n :=
+  ser_opsOf ctx h160 n verify
+
+/- T3 (full statement, not proved): for every well-typed `n` (all fragments, both dialects), with
+   `Sat`/`Dsat` extended to every row of BIP379's satisfaction table and `exec` to every op code
+   miniscript emits, `Sound sigOK ctx h160 n`.  T4 (full, not proved): the stack `satisfy` returns
+   is in `Sat`, has at most `max_stack_items` elements / `max_witness_size` bytes, runs within
+   `max_ops`, and `satisfy` returns none when the spending condition is false.
+   Proved below: T3 over the fragment set
+     S1 = { 0, 1, pk_k, c:, v:, a:, and_v, and_b, or_b, or_i }
+   for every candidate satisfaction/dissatisfaction of the tables (canonical and overcomplete),
+   against the minimal semantics of Model/C15/Eval.lean.  Missing: s: n: d: j:, pk_h, older, after,
+   the hashes, multi, multi_a, or_c, or_d, andor, thresh; the satisfier's choice (`_better`) and
+   the bounds. -/
+
+/-- T3_partial: every typed expression of S1 does to the stack what its type promises — "B": a
+    satisfaction leaves exactly 0x01, a dissatisfaction the empty vector, and under `v:` (its last
+    op code folded into the VERIFY form exactly when the type lacks "x") nothing; "V": consumed,
+    nothing left; "K": a key over a signature that verifies / does not; "W": as "B", next to the
+    element on top — in every enclosing executed branch, touching nothing else of the stack, the
+    altstack or the branch state. -/
+theorem type_soundness_partial (sigOK : Key → Bytes → Bool) (hsig0 : ∀ k, sigOK k [] = false)
+    (ctx : Ctx) (h160 : Bytes → Bytes) (n : Ms) (h : s1Typed ctx n = true) :
+    Sound sigOK ctx h160 n :=
+  sound_s1 sigOK ctx h160 hsig0 n h
+
+/-- T4_partial (validity half, for the tables rather than the chooser): a top-level "B" of S1 run
+    on any stack its satisfaction table lists ends with exactly the true value on the stack
+    (accepted), and on any listed dissatisfaction with the empty vector (refused). -/
+theorem satisfaction_accepted_partial (sigOK : Key → Bytes → Bool) (hsig0 : ∀ k, sigOK k [] = false)
+    (ctx : Ctx) (h160 : Bytes → Bytes) (n : Ms) (h : s1Typed ctx n = true)
+    (hB : (typeOf ctx n).B = true) (s : List Bytes) :
+    (Sat sigOK n s → exec sigOK (opsOf ctx h160 false n) ⟨s, [], []⟩ = some ⟨[[1]], [], []⟩) ∧
+    (Dsat sigOK n s → exec sigOK (opsOf ctx h160 false n) ⟨s, [], []⟩ = some ⟨[[]], [], []⟩) := by
+  obtain ⟨bs, bd, _⟩ := (sound_s1 sigOK ctx h160 hsig0 n h).1 hB
+  constructor
+  · intro hs; simpa using bs s [] [] [] rfl hs
+  · intro hs; simpa using bd s [] [] [] rfl hs
+
+/-- non-vacuity: `or_i(and_v(v:c:pk_k(K),1), and_b(c:pk_k(K'),a:c:pk_k(K'')))` is in S1 and typed
+    "B"; with a signature for K the stack [1, σ] satisfies it. -/
+example :
+    let k : Key := 2 :: List.replicate 32 7
+    let k' : Key := 3 :: List.replicate 32 9
+    let n : Ms := .bin .or_i (.bin .and_v (.wrap .v (.wrap .c (.pk_k k))) .f1)
+      (.bin .and_b (.wrap .c (.pk_k k')) (.wrap .a (.wrap .c (.pk_k k))))
+    s1Typed .p2wsh n = true ∧ (typeOf .p2wsh n).B = true := by
+  decide
+
+example (sigOK : Key → Bytes → Bool) (k : Key) (σ : Bytes) (hσ : sigOK k σ = true) (y : Ms) :
+    Sat sigOK (.bin .or_i (.bin .and_v (.wrap .v (.wrap .c (.pk_k k))) .f1) y) ([1] :: ([σ] ++ [])) :=
+  .or_i_l _ _ _ (.and_v _ _ _ _ (.wrap _ _ _ (.wrap _ _ _ (.pk_k k σ hσ))) .f1)
 
 end Props.C15
